@@ -94,7 +94,9 @@ CLAIMED = {
              "policy is never satisfied, and with an ignored part a permit stays satisfiable. TLC enumerates policies of the "
              "expression universe x 13 partial-environment shapes, the real PartialPolicy supplies keep/residual, and TLC "
              "evaluates original and residual (with the C01 evaluator) under every completion. Random policies/environments "
-             "likewise.",
+             "likewise. Further families: the conditions loop (three-condition policies x six shapes mixing unknown and "
+             "ignored parts), literals and if branches over partly known collections (the leak family), and batch.Authorize "
+             "over templates with ignored parts judged against completions evaluated by the specification.",
         design_ref="DESIGN.md 4 C06",
         note=TRUSTED + "Completions come from finite candidate universes; an unsoundness that needs a value outside them is "
              "missed. Error nodes in residuals mean 'evaluation fails'. Forbid policies with ignored parts are unconstrained.",
@@ -153,8 +155,10 @@ CLAIMED = {
              "its sequential result F(op, S) and UNCHANGED S. Sessions of 8-64 (thorough: up to 128) goroutines sharing one "
              "PolicySet, EntityMap, requests and values are recorded from a -race build (every call/return with the "
              "goroutine's own sequence number); TLC validates every event: authorizations against the Authz specification, "
-             "encoders / accessors / batch against their sequential result, deep reflection snapshots of all shared inputs "
-             "against the initial one. Data races are decided by the Go race detector on the same runs.",
+             "encoders / accessors / batch (also with ignored parts) / eval.PartialPolicy on the shared trees / the validator "
+             "over a shared resolved schema / schema marshalling and resolution against their sequential result, deep "
+             "reflection snapshots of all shared inputs against the initial one. Data races are decided by the Go race "
+             "detector on the same runs.",
         design_ref="DESIGN.md 4 C19",
         note=TRUSTED + "The race detector is a borrowed oracle for the memory-model half of the statement (a TLA+ specification "
              "of the API cannot observe data races). Interleavings are those the scheduler produced; nothing is exhaustive.",
@@ -254,12 +258,18 @@ CLAIMED = {
              "text -> JSON and authorizes every variant; Trace_PolicyJson demands that the specification's reading of the RECORDED "
              "document is the subject's AST (an encoder and decoder wrong in the same way are caught), that the decoded policy is "
              "SameAst, that the detour equals what the text alone denotes, that all variants have the same outcome (= "
-             "CedarPolicy!Outcome for random policies under random environments), that bytes repeat, and that policy-set JSON "
-             "preserves ids and the policy under every id.",
+             "CedarPolicy!Outcome for random policies under random environments), and that policy-set JSON preserves ids and the "
+             "policy under every id. The recorded document is also respelled (explicit scope entities, implicit entity values, "
+             "split / empty pattern literals, extension values <-> constructor calls, reversed member order, explicit empty "
+             "members, escaped strings and white space); every respelling is read by the specification and, where it reads "
+             "the subject's policy, the real decoder must too. Names the syntax cannot spell are offered to the decoder and "
+             "judged only if it accepts them.",
         design_ref="DESIGN.md 4 C09",
         note=TRUSTED + "The JSON format in PolicyJson.tla is a transcription of the documented one (one deviation of the code is read "
              "as written: `in` with an empty entity list has no `entities` member). ASTs calling functions Cedar does not have are "
-             "outside the quantifier. Spellings other encoders may write are not generated.",
+             "outside the quantifier. Other spellings are respellings of the recorded document (seven families), not documents "
+             "generated from the format grammar. Whether a second encoding repeats the bytes is recorded, not judged (the "
+             "statement does not ask for it).",
         technique="TLA+ reader of the JSON policy format and AST comparison form as the judge; TLC-enumerated ASTs encoded and decoded by "
                   "the Go code; TLC trace validation of every recorded round trip (document read by the specification) and of random policies"),
     "C13": dict(
@@ -353,7 +363,11 @@ CLAIMED = {
              "pair of 39 typed leaves, every unary operator and 15 extension functions over the leaves, 50 guard forms (has / hasTag "
              "before access in && / || / ! / then / else positions, is-guards, optional access inside sets / records / if), under "
              "three action scopes (26k policies; every 4th quick). The real validator judges each policy in strict and permissive mode; "
-             "Trace_Typing evaluates every ACCEPTED policy under all environments and demands soundness.",
+             "Trace_Typing evaluates every ACCEPTED policy under all environments and demands soundness. Further families: capability "
+             "identity (places spelled alike), `in` with every shape of right-hand side, is / like / entity references / action "
+             "comparisons, 5040 scope-clause combinations, two principal types under one action, tests the validator may wrongly "
+             "type as False (a second namespace with an action group of another action type, hasTag on unions, has on dropped "
+             "least-upper-bound attributes), unknown functions.",
         design_ref="DESIGN.md 4 C15",
         note=TRUSTED + "The typing rules themselves are not modelled (the statement is about what the real validator accepts); one schema "
              "and a bounded universe of conforming data: unsoundness that needs other shapes is missed. Error classes come from the "
